@@ -229,6 +229,10 @@ impl Check {
         crate::simnet::CUR_CFG_INDEX.store(cfg_index, std::sync::atomic::Ordering::Relaxed);
         crate::simnet::CUR_MAX_POLLS.store(ecfg.max_polls, std::sync::atomic::Ordering::Relaxed);
         let st = explore::<S>(cfg, ecfg, self.deadline);
+        if std::env::var("VERIF_RSSDBG").is_ok() {
+            let rss = std::fs::read_to_string("/proc/self/statm").ok().and_then(|s| s.split_whitespace().nth(1).and_then(|x| x.parse::<u64>().ok())).unwrap_or(0) * 4096 / (1 << 20);
+            eprintln!("rss after config #{cfg_index}: {rss} MiB ({} executions)", st.execs);
+        }
         self.evaluations += st.execs;
         self.states += st.points;
         self.transitions += st.transitions;
